@@ -10,6 +10,7 @@ Oracle: every call's outcome equals its outcome in isolation; shared key sets st
 from __future__ import annotations
 import copy
 import json
+from collections import Counter
 import sys
 import threading
 import time
@@ -711,7 +712,7 @@ TOUCH = {"sigkey_first_use_sign": {"ec_sig"}, "sigkey_encrypt_refused": {"ec_sig
 SIBLING = {"decrypt_kw_b": "decrypt_kw", "decrypt_kw_cbc_b": "decrypt_kw_cbc", "decrypt_kw_c20p_b": "decrypt_kw_c20p", "decrypt_1pu_kw_b": "decrypt_1pu_kw",
            "encrypt_kw_zip_b": "encrypt_kw_zip", "decrypt_kw_zip_b": "decrypt_kw_zip", "encrypt_json_kw_b": "encrypt_json_kw"}
 CORE = ["sign_hs_k1", "sign_hs_k2", "verify_hs_k1", "verify_hs_wrongkey", "sign_es", "verify_es_private_obj", "keyset_new", "keyset_sign_pick",
-        "keyset_verify_kid", "thumbprint", "ensure_kid", "export_public", "encrypt_kw", "decrypt_kw", "encrypt_ecdh", "jwt_roundtrip", "shared_keyset_sign",
+        "keyset_verify_kid", "thumbprint", "ensure_kid", "export_public", "encrypt_kw", "decrypt_kw", "encrypt_ecdh", "jwt_roundtrip", "shared_keyset_sign", "shared_keyset_dict",
         "verify_disallowed", "verify_ed_allowed", "read_kid", "custom_registry_sign", "sign_unregistered_header",
         "encrypt_kw_foreign_header", "sigkey_first_use_sign", "sigkey_encrypt_refused", "sigkey_keyset", "sigkey_export",
         "verify_hs256_list", "verify_hs512_under_hs256_list", "verify_hs512_list", "decrypt_pbes2_right", "decrypt_pbes2_wrong",
@@ -1011,6 +1012,10 @@ def run_shard(ctx, spec):
             return True
         quick_all = [not quick]
         hot_pairs = [p for p in pairs if is_hot(*p)]
+        # objects shared by few operations first (a particular key set, registry, key), the built-in algorithm objects that half of the
+        # operations touch last: under a tight budget the specific sharings are explored before the generic ones
+        freq = Counter(t for n_ in names for t in TOUCH.get(n_, ()))
+        hot_pairs.sort(key=lambda p: min(freq[t] for t in TOUCH[p[0]] & TOUCH[p[1]]))
         cold_pairs = [p for p in pairs if not is_hot(*p)]
         mine = [p for j, p in enumerate(hot_pairs) if j % spec["n"] == spec["i"]] + [p for j, p in enumerate(cold_pairs) if j % spec["n"] == spec["i"]]
         lens = {}
